@@ -235,7 +235,7 @@ LEVEL = "proof"
 EXPLANATION = ("For hard edges (gaussian = 0) the result of lowpass/highpass/bandpass is Re ifftn(fftn(x) * G) with a gain array G that does not depend on x and whose value at the generic DFT "
                "index equals the documented function of the integer frequency radius: 1 up to the cutoff (inclusive) and 0 beyond; high-pass = 1 - low-pass; band-pass = difference of the two "
                "low-passes; non-cubic boxes and both ways of giving the cutoff (Fourier pixels, resolution + pixel size with Python's round). Proved over the fftshift index model and the callee "
-               "contract of cryomask.spherical_mask (C13). Linearity, realness, shift commutation follow from the FFT contract (lemmas). Gaussian edges and DFT-level checks: bounded.")
+               "contract of cryomask.spherical_mask (C13). For soft edges (gaussian > 0) the mask is an opaque callee value in [0,1] and the same structure is proved: low-pass gain = soft mask at the shifted index, high-pass = 1 - it, band-pass = difference of the two low-pass gains (not clipped). Linearity, realness, shift commutation follow from the FFT contract (lemmas). The Gaussian profile itself and DFT-level checks: bounded.")
 ASSUMPTIONS = ["numpy.fft contract: fftn/ifftn mutually inverse linear maps diagonalising circular shifts; ifftshift(a)[i] = a[(i + n//2) mod n]",
                "callee contract of cryomask.spherical_mask (proved in C13); cutoff inclusive; resolution maps with Python's round() (half to even) using the first axis as box size"]
 
